@@ -44,7 +44,7 @@ def configs(tier):
                                 wstub='abstract', max_expo=E, truncate=True, tags=['gillespie', g, 'w:' + w]))
     # the same law with the REAL weighted candidate sets (update / remove with their max-weight bookkeeping; only the rejection
     # loop is replaced by a logged weighted choice): few configurations, the bookkeeping multiplies paths
-    for g, I0 in (('K2', [0]), ('P3', [1])) + ((('P3', [0]), ('K3', [0])) if tier == 'thorough' else ()):
+    for g, I0 in (('K2', [0]), ('P3', [1])) + ((('P3', [0]),) if tier == 'thorough' else ()):
         out.append(dict(family='gillespie', entry='Gillespie_SIS', graph=g, I0=I0, R0=[], weights='both', full=False, tmax='inf',
                         wstub=True, max_expo=E + 1, truncate=True, max_paths=60000, tags=['gillespie', g, 'w:both', 'real-weighted-set']))
     for g in ['K2', 'P3'] + (['K3'] if tier == 'thorough' else []):
@@ -57,7 +57,7 @@ def configs(tier):
                     if len(I0) > 1:
                         bounds = []     # two initial episodes + reinfection: thorough tier
                 else:
-                    bounds = ([(3, 3)] + ([(4, 2)] if len(I0) == 1 else [])) if g == 'P3' else ([(2, 3)] if len(I0) <= 2 else [])     # (sized to the path cap)
+                    bounds = [(3, 3)] if g == 'P3' else ([(2, 3)] if len(I0) <= 2 else [])     # (sized to the path cap)
                 for (ep, pt) in bounds:
                     out.append(dict(family='fast', entry='fast_SIS', graph=g, I0=I0, R0=[], weights=w, full=True, tmax='sym',
                                     max_episodes=ep, max_points=pt, tags=['fast', g, 'w:' + w, 'ep%d' % ep]))
